@@ -779,6 +779,12 @@ func (ex *Exec) callKnown(fr *frame, st *State, cc *ssa.CallCommon, callee *ssa.
 			}
 		}
 		setRes(ex.contractCall(fr, st, c, ex.fnName(callee), callee.Signature, names, ptypes, args, pos))
+	case ex.isOpaqueFn(callee) && c == nil && atomicWrite(callee):
+		// a store through sync/atomic is a write to the program's own memory: not "no effect". Without a contract it
+		// is treated like any unknown callee (frame obligation unless the function may modify the heap; state havocked)
+		ex.assumptions["havoc (sync/atomic write, no contract): "+callee.String()] = true
+		ex.havocCall(st, pos, callee.String())
+		setRes(ex.freshResults(st, callee.Signature, callee.Name()))
 	case ex.isOpaqueFn(callee) && c == nil:
 		ex.assumptions["opaque (no effect, unconstrained result): "+callee.String()] = true
 		r := ex.freshResults(st, callee.Signature, callee.Name())
@@ -927,6 +933,22 @@ func variadicElems(v ssa.Value) []ssa.Value {
 		}
 	}
 	return out
+}
+
+// atomicWrite: the functions and methods of sync/atomic that write (everything but the loads)
+func atomicWrite(fn *ssa.Function) bool {
+	if fn.Pkg == nil || fn.Pkg.Pkg.Path() != "sync/atomic" {
+		if o := fn.Origin(); o == nil || o.Pkg == nil || o.Pkg.Pkg.Path() != "sync/atomic" {
+			return false
+		}
+	}
+	n := fn.Name()
+	for _, pre := range []string{"Store", "Swap", "Add", "CompareAndSwap", "And", "Or"} {
+		if strings.HasPrefix(n, pre) {
+			return true
+		}
+	}
+	return false
 }
 
 // errFresh: a freshly created error is none of the sentinels (unless wrapping, which isErr handles separately).
